@@ -38,4 +38,18 @@ theorem historyItems_refines (enc : List Nat → Int) (trainRow : Nat → Option
   obtain ⟨user, items⟩ := q
   cases user <;> cases items <;> simp [LK.Rec.historyLookup]
 
+
+/-! ### `argtopn` -/
+
+/-- nothing is ranked exactly for `n = 0` (the model's first test) -/
+theorem argtopnZero_iff (n : Int) : argtopnZeroBranch n = 0 ↔ n = 0 := by simp [argtopnZeroBranch]
+
+/-- items without a score are set aside exactly when there is one (the model ranks `validPositions` only) -/
+theorem argtopnInvalid_iff (b : Bool) : argtopnInvalidBranch b = 0 ↔ b = true := by cases b <;> simp [argtopnInvalidBranch]
+
+/-- the partial sort is taken exactly for `0 ≤ n < N`; a negative `n` and an `n ≥ N` rank everything — the model's
+    `if n < 0 then sorted else sorted.take n` (taking `n ≥ N` of `N` is everything) -/
+theorem argtopnPartial_iff (n N : Int) : argtopnPartialBranch n N = 0 ↔ (0 ≤ n ∧ n < N) := by
+  simp [argtopnPartialBranch, LK.Py.ge, LK.Py.le, LK.Py.lt]
+
 end LK.Gen.GuardsC03
